@@ -17,7 +17,7 @@ RULE = ("req: _LanProtocolV3._encode_encrypted_request(counter, payload) under a
         "decoder (type 6, counter, payload, pad == (16-(len+2)%16)%16, size == len+pad+32, total == size+8, valid SHA-256 tag); "
         "resp: packets from the independent encoder decoded by _process_packet; tamper: every single-bit flip of one response "
         "per residue must make LAN._read semantics (_process_packet then _Packet.decode) raise ProtocolError; wire: LAN.send on an "
-        "authenticated connection with arbitrary frame lengths. Exhaustive payload lengths 0..300 (all 16 residues) and counters "
+        "authenticated connection with arbitrary frame lengths (optionally with the request leaving just before the 12 h key lifetime ends and the response arriving just after); half of the codec cases reuse one long-lived protocol object per key instead of a fresh one. Exhaustive payload lengths 0..300 (all 16 residues) and counters "
         "0..4095; keys random. Non-trivial: (len+2)%16==0 or len in {0,1} or counter in {0,255,256,4095} or a tamper case. "
         "Distinct by (kind, len/payload hash, key, counter, flip).")
 ASSUMPTIONS = ["AES block primitive and SHA-256 shared with the code under test (trusted base)",
@@ -37,10 +37,21 @@ def _payload(n: int, salt: int) -> bytes:
     return bytes(out[:n])
 
 
-def _proto(key: bytes):
+_SHARED: dict = {}
+
+
+def _proto(key: bytes, shared: bool = False):
+    """A protocol object holding ``key``; ``shared`` reuses one long-lived object per key (a connection that has
+    already encoded other requests), otherwise a fresh one."""
     from msmart.lan import _LanProtocolV3
+    if shared and key in _SHARED:
+        return _SHARED[key]
     p = _LanProtocolV3()
     p._local_key = key
+    if shared:
+        if len(_SHARED) > 64:
+            _SHARED.clear()
+        _SHARED[key] = p
     return p
 
 
@@ -52,7 +63,7 @@ def check_case(case: dict):
         payload = bytes.fromhex(case["payload"])
         cnt = case["counter"]
         try:
-            pkt = _proto(key)._encode_encrypted_request(cnt, payload)
+            pkt = _proto(key, case.get("shared", False))._encode_encrypted_request(cnt, payload)
         except Exception as e:
             return (f"req/raises/{type(e).__name__}", f"_encode_encrypted_request raised {e!r}")
         try:
@@ -84,7 +95,7 @@ def check_case(case: dict):
         pkt = rc.v3_encode_response(key, cnt, payload, padbytes=padb)
         try:
             with memoryview(pkt) as mv:
-                got = _proto(key)._process_packet(mv)
+                got = _proto(key, case.get("shared", False))._process_packet(mv)
         except Exception as e:
             return (f"resp/raises/{type(e).__name__}", f"_process_packet raised {e!r} for payload len {len(payload)} pad {pad}")
         if got != payload:
@@ -121,6 +132,10 @@ def check_case(case: dict):
             lan = LAN("10.0.0.9", 6444, case["id"])
             try:
                 await lan.authenticate(token, key)
+                if case.get("edge"):
+                    # the request leaves 20 ms before the 12 h key lifetime ends, the (prompt) response arrives after it
+                    import asyncio
+                    await asyncio.sleep(12 * 3600 - 1.0 - 0.02)
                 for _ in range(case.get("warm", 0)):
                     lan._protocol._packet_id = (lan._protocol._packet_id + 1) & 0xFFF
                 out["frames"] = await lan.send(frame, retries=1)
@@ -176,14 +191,16 @@ def _run_one(ctx, case):
 def run(ctx) -> None:
     nkeys = 2 if ctx.quick else 12
     n = 0
-    # every payload length 0..300 (all residues incl. pad 0), both directions
+    # every payload length 0..300 (all residues incl. pad 0), both directions; odd keys reuse one long-lived protocol
+    # object per key (all lengths in ascending order on the same "connection": the key index selects the shard)
     for L in range(301):
         for k in range(nkeys):
             n += 1
-            if not ctx.mine(n):
+            if k % ctx.nshards != ctx.shard:
                 continue
             for kind in ("req", "resp"):
-                case = {"kind": kind, "key": _key(k).hex(), "payload": _payload(L, k).hex(), "counter": (L * 37 + k * 1001) & 0xFFF}
+                case = {"kind": kind, "key": _key(k).hex(), "payload": _payload(L, k).hex(), "counter": (L * 37 + k * 1001) & 0xFFF,
+                        "shared": k % 2 == 1}
                 ctx.check(case, lambda c: _run_one(ctx, c))
     ctx.sweep("payload length 0..300 x keys x {req,resp}", n * 2, True)
     # every counter 0..4095 for a few lengths
@@ -227,11 +244,11 @@ def run(ctx) -> None:
         "payload": hexb(st.one_of(st.integers(0, 300).flatmap(lambda n: st.binary(min_size=n, max_size=n)),
                                   st.integers(0, 20).map(lambda k: bytes(16 * k + 14)), gens.frames_bytes(300))),
         "counter": st.one_of(st.integers(0, 4095), st.sampled_from([0, 255, 256, 4095, 4096, 65535])),
-        "padbytes": hexb(st.binary(min_size=16, max_size=16))})
+        "padbytes": hexb(st.binary(min_size=16, max_size=16)), "shared": st.booleans()})
     wire_cases = st.fixed_dictionaries({
         "kind": st.just("wire"), "key": hexb(gens.keys32()), "id": gens.device_ids(64),
         "frame": hexb(gens.frames_bytes(255)), "replies": st.lists(hexb(gens.frames_bytes(100)), min_size=1, max_size=3),
-        "cuts": gens.cut_sets(300, 5), "warm": st.sampled_from([0, 0, 254, 4094])})
+        "cuts": gens.cut_sets(300, 5), "warm": st.sampled_from([0, 0, 254, 4094]), "edge": st.sampled_from([False, False, True])})
     tamper_cases = st.fixed_dictionaries({
         "kind": st.just("tamper"), "key": hexb(gens.keys32()), "frame": hexb(gens.frames_bytes(80)),
         "counter": st.integers(0, 4095), "bit": st.integers(0, 8 * 250), "inner": st.sampled_from(["v2", "raw"])})
